@@ -92,6 +92,8 @@ def check_outcome(ck, case, spec, snap, out):
         if ev['kind'] in ('global-write', 'class-attr-write'):
             ck.violate('C01.stateless', f"{key}:{ev['kind']}:{ev.get('name')}",
                        f"{case.label}: writes shared state {ev.get('name')}")
+        if ev['kind'] == 'env-read':
+            ck.violate('C01.stateless', f'{key}:env-read', f"{case.label}: reads the {ev.get('what')}")
         if ev['kind'] == 'clock-read':
             stack = ev['stack'][-1] if ev['stack'] else ''
             if not stack.endswith('ClimatologyConfig.add'):
